@@ -11,6 +11,7 @@ import (
 	context_manager "lunar/toolkit-core/context-manager"
 	"lunar/toolkit-core/otel"
 	"lunar/toolkit-core/verifhook"
+	"sync"
 	"time"
 
 	lunar_metrics "lunar/engine/metrics"
@@ -36,6 +37,7 @@ const (
 )
 
 type queueProcessor struct {
+	enqueueMutex                sync.Mutex
 	quotaID                     string
 	name                        string
 	queue                       publictypes.SharedQueueI
@@ -375,6 +377,11 @@ func (p *queueProcessor) enqueueIfSlotAvailable(req *Request) bool {
 		Int64("MaxQueueSize", p.maxQueueSize).
 		Int64("MaxSharedQueueSize", p.maxRedisQueueSize).
 		Msgf("Checking if slot available")
+
+	// the slot check and the registration form one step: concurrent callers that all saw the
+	// last free slot must not all take it
+	p.enqueueMutex.Lock()
+	defer p.enqueueMutex.Unlock()
 
 	localSize := p.requestsWatcher.GetCount()
 	if localSize >= p.maxQueueSize {
